@@ -82,6 +82,11 @@ def work_run(spec, part):
             part["violations"].append({"signature": "word-out-of-range", "message": "stored value outside [0, 2^31-1]: " + m,
                                        "case": common.slim_case(case)})
             continue
+        if r_.get("execute_agrees") is False:
+            part["violations"].append({"signature": "execute-differs-from-single-steps", "message":
+                                       "VM::execute() ends in another state than the same program driven by executeSingle(): %s vs %s"
+                                       % (r_.get("execute_acts"), r_["acts"]), "case": common.slim_case(case)})
+            continue
         if r_.get("nondeterministic"):
             part["violations"].append({"signature": "nondeterministic-run", "message": "two runs of the same program in one process differ",
                                        "case": common.slim_case(case)})
